@@ -152,7 +152,7 @@ func c36Case(rt *rapid.T, rec *evid.Rec, fatalf func(string, ...any)) {
 				targets := []time.Time{trc2Start.Add(-time.Hour), trc2Start.Add(time.Hour), trc2Start.Add(time.Duration(graceDays) * day / 2), trc2Start.Add(time.Duration(graceDays)*day - time.Hour),
 					trc2Start.Add(time.Duration(graceDays)*day + time.Hour), trc1End.Add(-time.Hour), trc1End.Add(time.Hour)}
 				if tg := targets[rapid.IntRange(0, len(targets)-1).Draw(rt, "target")]; tg.After(time.Now()) {
-					d = time.Until(tg)
+					d = time.Until(tg) + 13*time.Second // never exactly on a validity boundary
 				}
 			}
 			time.Sleep(d)
